@@ -62,6 +62,8 @@ macro_rules! harness {
         #[kani::stub(std::io::_print, crate::verif_kani::rt::io_print)]
         #[kani::stub(std::io::_eprint, crate::verif_kani::rt::io_print)]
         #[kani::stub(std::time::Instant::now, crate::verif_kani::rt::instant_now)]
+        #[kani::stub(std::time::Instant::elapsed, crate::verif_kani::rt::instant_elapsed)]
+        #[kani::stub(std::sync::Mutex::lock, crate::verif_kani::rt::mutex_lock)]
         $(#[$m])*
         pub fn $name() $body
     };
@@ -79,3 +81,4 @@ pub mod w_loop;
 pub mod g_glue;
 pub mod u_subs;
 pub mod g_effects;
+pub mod g_notify;
